@@ -868,6 +868,32 @@ func ruleListCover(p *Prog, r *Result) {
 					}
 				})
 			}
+			// ... and nothing is decided about the document before it is parsed: in the function that unmarshals, the
+			// call dominates every return (a look at the first byte forgets the blanks JSON allows in front)
+			for _, f := range p.staticClosure(body, 2, nil) {
+				var um ssa.Instruction
+				allInstrs(f, func(in ssa.Instruction) {
+					if c, ok := in.(*ssa.Call); ok && p.calleeName(&c.Call) == "encoding/json.Unmarshal" {
+						um = in
+					}
+				})
+				if um == nil {
+					continue
+				}
+				early := ""
+				for _, b := range f.Blocks {
+					if ret := retOf(b); ret != nil && !instrDominates(um, ret) {
+						// an error return before the parse (a value that is not text) is fine
+						if len(ret.Results) > 0 {
+							if ev := retVal(ret, len(ret.Results)-1); ev.Type().String() == "error" && !isNilConst(ev) {
+								continue
+							}
+						}
+						early = p.InstrPos(ret)
+					}
+				}
+				r.add(early == "", "json|"+which+"|parse-first", p.Pos(f.Pos()), firstNonEmpty(map[bool]string{true: "a result is returned at " + early + " before the document was parsed"}[early != ""], "every result of "+p.FName(f)+" follows the parse of the document"))
+			}
 			if target != "" {
 				r.add(target == "any", "json|"+which+"|array-document", p.Pos(body.Pos()), fmt.Sprintf("json() unmarshals the document into a value of any kind (target type %s): an array document is a list, not an empty object", target))
 			}
